@@ -364,8 +364,24 @@ def live_reconfig(ctx, n):
         loops = rng.choice([1, 3])
         world.install([first])
 
+        # half of the cases: the new tracepoint is REGISTERED IN CODE while the function runs (no answer of the service yet) and
+        # reaches the handler the way the agent delivers it: configuration service -> its listener -> handler
+        registered = rng.random() < 0.5
+        handle = {}
+        if registered:
+            from deep.config.tracepoint_config import TracepointConfigService
+            from deep.processor.trigger_handler import TracepointHandlerUpdateListener
+            from ..lib import e5
+            svc, tasks = TracepointConfigService(), e5.CtlTasks()
+            svc.set_task_handler(tasks)
+            svc.add_listener(TracepointHandlerUpdateListener(world.handler))
+
         def install(world=world, first=first, base=base, target=target):
-            world.install([first, mk("tp1", base, target)])
+            if registered:
+                handle["tp1"] = svc.add_custom(base, target, {"fire_count": "-1", "fire_period": "0", "log_msg": "m", "snapshot": "no_collect"}, [], [])
+                tasks.flush()
+            else:
+                world.install([first, mk("tp1", base, target)])
 
         def tracer(frame, event, arg, world=world):
             if event not in KINDS:
@@ -385,9 +401,10 @@ def live_reconfig(ctx, n):
         th = threading.Thread(target=body)
         th.start()
         th.join()
-        acted = [tp for what, tp, _i, _p in world.log if what == "log"]
+        acted = ["tp1" if tp == handle.get("tp1") else tp for what, tp, _i, _p in world.log if what == "log"]
         want = ["tp1"] * (loops if target == 6 else 1)
-        j = dict(live=True, configuration_before=before, installed_while_running="line %d of the running function" % target,
+        j = dict(live=True, configuration_before=before, how="registered in code, delivered by the service's listener" if registered else "installed directly",
+                 installed_while_running="line %d of the running function" % target,
                  loop_iterations=loops, acted=acted)
         ctx.case(j, nontrivial=True, bucket="live-reconfig")
         if acted != want:
